@@ -235,6 +235,31 @@ def run_ctor(case, rec):
                                 if np.ptp(a[:, fr, f]) == 0:
                                     rec.violation(sigp + "/facet-constant",
                                                   "facet %d does not vary along its free coordinate" % f)
+            if method == "uniform":
+                # the public samplers with an explicit number of points (what a refinement step asks for): exactly that
+                # many points of the domain, whatever n is
+                import jax
+                for m in sorted({max(1, n - 1), n + 3}):
+                    kk = jax.random.PRNGKey(key + m)
+                    try:
+                        pts = np.asarray(guard.call(g.sample_in_omega_domain, kk if dim == 1 else jax.random.split(kk, dim), m))
+                    except guard.Unsupported as u:
+                        rec.unsupp("%s sampler: %s" % (sigp, u.reason))
+                        break
+                    rec.count("explicit_size_sampler_calls")
+                    if pts.shape != (m, dim):
+                        rec.violation(sigp + "/sampler-count", "sample_in_omega_domain asked for %d points in dimension %d, "
+                                      "returned shape %s (n=%d)" % (m, dim, pts.shape, n))
+                        continue
+                    for ax in range(dim):
+                        _in_box(rec, pts[:, ax], mins[ax], maxs[ax], "sampled points axis %d" % ax, sigp + "/sampler-range")
+                    if gen == "nonstatio":
+                        ts = np.asarray(guard.call(g.sample_in_time_domain, kk, m))
+                        if ts.shape != (m,):
+                            rec.violation(sigp + "/sampler-count-times", "sample_in_time_domain asked for %d, returned shape %s"
+                                          % (m, ts.shape))
+                        else:
+                            _in_box(rec, ts, d["tmin"], d["tmax"], "sampled times", sigp + "/sampler-range-times")
             rec.set_sample(gen=gen, method=method, dim=dim, n=n, box=case["box"], omega_head=om[:3])
 
 
